@@ -118,11 +118,16 @@ def norm(lines):
     return "|".join(out)
 
 
-ERR_MARK = re.compile(r"ERR\d+|^O [1-9]\d*:|rc=0x[1-9a-f]|rc=[1-9]|rc=-|parse=?(?:0x)?[1-9a-f]|load=0x[1-9a-f]|new=[1-9]|close=[1-9]|ser=(?:ERR|-)|src=err|sig=[1-9]|state=[56]|str=-")
+ERR_MARK = re.compile(r"ERR\d+|^O (?:\S+ )*[1-9]\d*:-1:-|rc=0x[1-9a-f]|rc=[1-9]|rc=-|parse=?(?:0x)?[1-9a-f]|load=0x[1-9a-f]|new=[1-9]|close=[1-9]|ser=(?:ERR|-)|src=err|sig=[1-9]|state=[56]|str=-")
 
 
 def is_error(r, ref):
     """the (differing) result reports an error somewhere"""
+    if r.startswith("O ") and ref.startswith("O "):
+        # a chain aggregated several times: every aggregation that succeeded must give the fault-free root and level
+        a, b = r.split()[1:], ref.split()[1:]
+        if len(a) == len(b) and any(x.startswith("0:") and x != y for x, y in zip(a, b)):
+            return False
     if ERR_MARK.search(r):
         return True
     m, m0 = re.search(r"add=(\S+)", r), re.search(r"add=(\S+)", ref)          # tree builder: a leaf refused that the reference accepted
@@ -174,6 +179,8 @@ def catalogue(rng, W, tier):
     # --- hash chains (hashchain.c)
     links = ksi.rand_links(rng, 4, kinds=("imprint", "legacy", "meta"))
     ops.append(simple("aggregate-chain", "drv_chain", "OBJ %s 0" % ksi.aggr_chain_tlv(1500000000, [ksi.shape_index(links)], doc, 1, links).hex(), "hashchain"))
+    # the chain object memoises its root per start level: aggregate at 0, at 3, at 0 again, at 1 (a fault in a later aggregation must not disturb the object)
+    ops.append(simple("reaggregate-chain-levels", "drv_chain", "OBJ %s 0 3 0 1" % ksi.aggr_chain_tlv(1500000000, [ksi.shape_index(links)], doc, 1, links).hex(), "hashchain"))
     # --- tree builder (tree_builder.c)
     leaves = " ".join("h:0:%s" % ksi.fake_imprint(1, b"l%d" % i).hex() for i in range(5)) + " m:0:" + b"client".hex()
     ops.append(simple("tree-builder", "drv_tree", "TB 1 8 " + leaves, "tree_builder"))
